@@ -16,7 +16,46 @@ def tmp(n):
     return os.path.join(vlib.WORK, "tmp", n)
 
 
-def budget_stage(res, tier):
+def judge_sweep(res, sweep):
+    """Large-state sweep records judged by ObserveBudget!C07_SweepOk."""
+    if not sweep:
+        return 0
+    cfg = vlib.write_cfg(tmp("obsbudget_sweep.cfg"), None, {}, invariants=["C07_SweepOk"],
+                         init_next=("ObsInit", "ObsNext"))
+
+    def once(recs):
+        path = tmp("budget_sweep.ndjson")
+        with open(path, "w") as fh:
+            for r in recs:
+                fh.write(json.dumps({"mtu": r["mtu"], "len": r["len"], "members": r["members"], "panic": r["panic"]}) + "\n")
+        r, text = vlib.run_tlc("ObserveBudget.tla", cfg, workers=1, timeout=900,
+                               env={"TRACE": path, "JAVA_TOOL_OPTIONS": "-Xss1g"})
+        os.remove(path)
+        if "Parsing or semantic analysis failed" in text:
+            raise vlib.ToolError("ObserveBudget failed to parse: " + text[-600:])
+        if re.search(r"Invariant C07_SweepOk is violated", text):
+            return True
+        if "Error:" in text:
+            raise vlib.ToolError("ObserveBudget (sweep) failed: " + text[-600:])
+        return False
+    if not once(sweep):
+        return 0
+    # locate up to 3 offending records by halving
+    bad = []
+    cand = sweep
+    while len(cand) > 1:
+        half = cand[:len(cand) // 2]
+        cand = half if once(half) else cand[len(cand) // 2:]
+    bad.append(cand[0])
+    for x in bad:
+        res.violation({"kind": "budget-large-state", "row": {k: x[k] for k in ("world", "q", "nmembers", "mtu", "len")},
+                       "members": [{k: m[k] for k in ("x", "from", "dmax", "carried", "setmax")} for m in x["members"]]},
+                      f"C07_SweepOk fails: delta of {x['len']} bytes under budget {x['mtu']} for a node with "
+                      f"{x['nmembers']} members")
+    return len(bad)
+
+
+def budget_stage(res, tier, seed=1):
     consts = {"T": 6, "Limit": 30 if tier == "quick" else 40, "Header": 4, "Reserved": 4,
               "Sizes": "{1, 2, 3, 5, 9}" if tier == "quick" else "{1, 2, 3, 5, 9, 14}",
               "Digests": "{0, 2, 7}", "MaxOps": 4 if tier == "quick" else 5, "FullGain": 3}
@@ -26,11 +65,14 @@ def budget_stage(res, tier):
                               export=False)
     if not m["ok"]:
         raise vlib.ToolError("Budget model: formula fails on the MODEL: " + "; ".join(m["errors"][:2]))
-    p = subprocess.run([vlib.harness_bin("budget"), tier], text=True, stdout=subprocess.PIPE,
+    p = subprocess.run([vlib.harness_bin("budget"), tier, str(seed)], text=True, stdout=subprocess.PIPE,
                        stderr=subprocess.DEVNULL)
     if p.returncode != 0:
         raise vlib.ToolError("budget sweep failed")
-    rows = [json.loads(l) for l in p.stdout.splitlines() if l.strip()]
+    allrows = [json.loads(l) for l in p.stdout.splitlines() if l.strip()]
+    rows = [r for r in allrows if r["kind"] != "Sweep"]
+    sweep = [r for r in allrows if r["kind"] == "Sweep"]
+    sweep_bad = judge_sweep(res, sweep)
     path = tmp(f"budget_{tier}.ndjson")
     with open(path, "w") as fh:
         for r in rows:
@@ -63,4 +105,7 @@ def budget_stage(res, tier):
             "budget_sweep_replies": len(rows), "budget_sweep_over_limit": len(bad),
             "budget_sweep_longest": max([x["total"] for x in rows] + [0]),
             "budget_sweep_included_at_boundary": sum(1 for x in rows if x["included"]),
+            "large_state_queries": len(sweep), "large_state_cut_members":
+                sum(1 for r in sweep for m in r["members"] if len(m["carried"]) < len([v for v in m["sender"] if v > m["from"]])),
+            "large_state_longest_delta": max([r["len"] for r in sweep] + [0]), "large_state_bad": sweep_bad,
             "budget_sample": rows[:2]}
